@@ -36,6 +36,7 @@ KERNELS = [
                 (r"det1det2_to_uncompressed_view_tangpos\[(\w+)\]\.grow\(([^;]*)\);", r"TAB2_GROW_INNER(\1, \2);", 1),
                 (r"det1det2_to_uncompressed_view_tangpos\[(\w+)\]\[(\w+)\]\.(view_num|tang_pos_num|swap_detectors)\s*=\s*([^;]+);",
                  r"TAB2_WRITE(\1, \2, \3, \4);", 3),
+                (r"(?:this->)?get_view_mashing_factor\(\)", "self->view_mashing_factor", (0, 3)),
                 (r"det1det2_to_uncompressed_view_tangpos_initialised = true;", "self->tab2_initialised = 1;", 1)]),
 ]
 
@@ -64,7 +65,7 @@ KERNELS += [
          rules=[(r"this->initialise_det1det2_to_uncompressed_view_tangpos_if_not_done_yet\(\);", "K_init_d2vt_if_not_done_yet(self); K_RETURN_IF_ERROR(0);", 1),
                 (r"det1det2_to_uncompressed_view_tangpos\[(\w+)\]\[(\w+)\]\.(view_num|tang_pos_num|swap_detectors)", r"TAB2_GET_\3(self, \1, \2)", 3),
                 (r"(?<![\w.>])(view_num|tang_pos_num) = ", r"*\1 = ", 2),
-                (r"get_view_mashing_factor\(\)", "self->view_mashing_factor", (1, 2))]),
+                (r"get_view_mashing_factor\(\)", "self->view_mashing_factor", (0, 2))]),
     dict(name="K_get_bin_for_det_pair", file=INL, cxx_name=CLS + "get_bin_for_det_pair",
          func=CLS + r"get_bin_for_det_pair\(\s*Bin& bin, const int det_num1, const int ring_num1, const int det_num2, const int ring_num2, const int timing_pos_num\) const",
          c_header="int K_get_bin_for_det_pair(struct PDI1* self, struct Bin* bin, const int det_num1, const int ring_num1, const int det_num2, const int ring_num2, const int timing_pos_num)",
@@ -426,6 +427,9 @@ def replay(job, o, workroot, repo):
             cands.append(["tables", n])
         for n, m in ((16, 2), (16, 4), (24, 3), (64, 8)):
             cands.append(["tables", n, m])
+        # history: the lazily built table after a change of the number of views on the object / a clone
+        for n, m in ((16, 2), (32, 4), (24, 3)):
+            cands.append(["stale", n, m])
     for c in cands:
         st, detail = native.run(exe, c, timeout=900)
         if st == "confirmed":
